@@ -657,8 +657,8 @@ func (d *Datastore) runDeviationUpdate(ctx context.Context, dm map[string]sdcpb.
 
 	intendedUpdates, err := d.readStoreKeysMeta(ctx, cachepb.Store_INTENDED)
 	if err != nil {
+		// the intents missing in running cannot be reported in this cycle, the cycle is closed with END nevertheless
 		log.Error(err)
-		return
 	}
 
 	for _, upds := range intendedUpdates {
